@@ -3,6 +3,8 @@
 #include <climits>
 #include <cstdarg>
 #include <thread>
+#include <sched.h>
+#include <sys/ioctl.h>
 
 namespace vk {
 
@@ -132,10 +134,13 @@ std::string body_C01(Ctx& c, CaseIn& in) {
     if (pipe(fds) == 0) {
       const size_t split = 1 + (size_t)tp.below(first_bytes.size() - 1);
       const Bytes data = first_bytes;
-      std::thread feeder([fd = fds[1], data, split] {
+      std::thread feeder([fd = fds[1], rfd = fds[0], data, split] {
         size_t off = 0;
         while (off < split) { ssize_t w = ::write(fd, data.data() + off, split - off); if (w <= 0) break; off += (size_t)w; }
-        usleep(300);
+        // second burst only after the reader has drained the first one (so a reader that issues one
+        // large read(2) deterministically gets a short count)
+        for (int spins = 0; spins < 2000000; spins++) { int avail = 0; if (ioctl(rfd, FIONREAD, &avail) != 0 || avail == 0) break; sched_yield(); }
+        usleep(200);
         while (off < data.size()) { ssize_t w = ::write(fd, data.data() + off, data.size() - off); if (w <= 0) break; off += (size_t)w; }
         ::close(fd);
       });
